@@ -547,6 +547,32 @@ func TestC12ShortFrames(t *testing.T) {
 		Exec: exec}, cases)
 }
 
+// TestC12Sizes sweeps request and reply sizes: a forwarded request of n body bytes (reply n+2 bytes), a
+// well-formed sign request carrying n data bytes and a wait request padded to n bytes, each followed by
+// a list request whose answer shows that the framing is still intact.
+func TestC12Sizes(t *testing.T) {
+	var cases []StreamCase
+	sizes := []int{}
+	for n := 0; n <= 700; n++ {
+		sizes = append(sizes, n)
+	}
+	sizes = append(sizes, 1023, 1024, 1025, 4095, 4096, 4097, 16383, 16384, 65535, 65536, 65537, 1<<20 - 1, 1 << 20)
+	pub := vh.SSHPub("ed25519c").Marshal()
+	for _, n := range sizes {
+		body := make([]byte, n)
+		for i := range body {
+			body[i] = byte(i*7 + n)
+		}
+		unknown := append([]byte{200}, body...)
+		sign := append(append([]byte{13}, sshString(pub)...), sshString(body)...)
+		sign = append(sign, 0, 0, 0, 0)
+		cases = append(cases, StreamCase{Frames: [][]byte{unknown, {11}, sign, {11}}, Kinds: []string{"unknown", "list", "sign", "list"}, Tail: "clean"})
+	}
+	vh.Enumerate(t, vh.Spec[StreamCase]{Property: "C12", Name: "TestC12Sizes", Exhaustive: true,
+		Rule: "for every size n in 0..700 and around 1 KiB, 4 KiB, 16 KiB, 64 KiB, 1 MiB: a forwarded request with n body bytes (echoed: reply of n+2 bytes), a list request, a well-formed sign request with n data bytes, a list request; same oracle (byte-identical echo, one response each, in order)",
+		Exec: exec}, cases)
+}
+
 // FuzzC12Stream: coverage-guided byte streams, same oracle (recording agent).
 func FuzzC12Stream(f *testing.F) {
 	seed := func(frames ...[]byte) []byte { return StreamCase{Frames: frames}.stream() }
